@@ -99,6 +99,9 @@ def script(path, P, order):
         ids = [int(order[5:])]
     if order == "desc":
         ids = ids[::-1]
+    if order.startswith("rot:"):
+        k = int(order[4:]) % len(ids)
+        ids = ids[k:] + ids[:k]
     L += ["load %d" % i for i in ids] + ["load %d" % i for i in ids]
     return L
 
